@@ -212,6 +212,36 @@ def run(ctx):
                 ctx.oracle_fail(f"the written info is rejected by the encoders ({type(exc).__name__}: {exc})",
                                 dict(desc, info=out))
                 continue
+            # ---- the command run AGAIN on the same destination with another target chunk size: refused (the info is
+            # kept as it is), or the info is the one a fresh destination would get for the new arguments ----
+            if rng.random() < 0.3:
+                other = [t for t in ("8", "16", "32", "64") if t != argv[4]]
+                argv2 = list(argv)
+                argv2[4] = rng.choice(other)
+                before_bytes = open(os.path.join(tmp, "info"), "rb").read()
+                try:
+                    rc2 = generate_scales_info.main(argv2)
+                except SystemExit as exc:
+                    rc2 = exc.code
+                except Exception:  # noqa
+                    rc2 = "raised"
+                ctx.hist("second_generate_scales_info", "accepted" if rc2 in (0, None) else "refused")
+                after_bytes = open(os.path.join(tmp, "info"), "rb").read()
+                if rc2 in (0, None):
+                    fresh = tempfile.mkdtemp(prefix="ngv_c08f_")
+                    try:
+                        argv3 = list(argv2)
+                        argv3[2] = fresh
+                        generate_scales_info.main(argv3)
+                        ref = json.load(open(os.path.join(fresh, "info")))
+                    finally:
+                        shutil.rmtree(fresh, ignore_errors=True)
+                    if json.loads(after_bytes) != ref:
+                        ctx.oracle_fail("generate-scales-info run again on a destination that already had an info reports "
+                                        "success, but the info is not the one its arguments describe (scales of the old "
+                                        "info survive)", dict(desc, second_argv=argv2[3:]))
+                elif after_bytes != before_bytes:
+                    ctx.oracle_fail("a refused second generate-scales-info changed the existing info", dict(desc, second_argv=argv2[3:]))
             final_enc = out["scales"][0]["encoding"]
             if final_enc != (enc_arg or enc_in or "raw"):
                 ctx.oracle_fail("the generated info does not carry the requested encoding (--encoding, else the input "
